@@ -2,6 +2,7 @@ package node
 
 import (
 	"fmt"
+	"net/url"
 	"reflect"
 	"strings"
 
@@ -12,12 +13,13 @@ import (
 
 func EncodeKey(v []val.Value) string {
 	var s string
-	// TODO: read RFC and escape chars including commas
+	// each key is escaped the way parseUrlPath unescapes it, so that commas,
+	// slashes and equal signs inside a key do not read back as separators
 	for i, val := range v {
 		if i > 0 {
-			s += "," + val.String()
+			s += ","
 		}
-		s += val.String()
+		s += url.QueryEscape(val.String())
 	}
 	return s
 }
